@@ -175,6 +175,12 @@ func NumUnconfirmedTxs(ctx *rpctypes.Context) (*ctypes.ResultUnconfirmedTxs, err
 // be added to the mempool either.
 // More: https://docs.tendermint.com/v0.34/rpc/#/Tx/check_tx
 func CheckTx(ctx *rpctypes.Context, tx types.Tx) (*ctypes.ResultCheckTx, error) {
+	// This is a CheckTx of a new transaction on the mempool connection like any
+	// other: keep it out of the window in which a block is committed and the
+	// mempool is updated and rechecked (see BlockExecutor.Commit).
+	env.Mempool.Lock()
+	defer env.Mempool.Unlock()
+
 	res, err := env.ProxyAppMempool.CheckTxSync(abci.RequestCheckTx{Tx: tx})
 	if err != nil {
 		return nil, err
